@@ -114,7 +114,8 @@ def kaldi_runs(run, tier, rng, root, traces):
     utts = {}
     spec = [("k01_ok", 900, 1, RATE, None), ("k02_ok", 1500, 1, RATE, None), ("k03_short", 40, 1, RATE, "empty"),
             ("k04_stereo", 1000, 2, RATE, None), ("k05_rate", 1200, 1, 16000, "rate"), ("k06_ok", 700, 1, RATE, None),
-            ("k07_one_frame", 100, 1, RATE, None), ("k08_two_frames", 161, 1, RATE, None)]
+            ("k07_one_frame", 100, 1, RATE, None), ("k08_two_frames", 161, 1, RATE, None),
+            ("k09_exactly_min_duration", 1000, 1, RATE, None)]  # 1000 / 8000 s = 0.125 s, exactly representable
     with open(os.path.join(d, "wav.scp"), "w") as scp:
         for (uid, n, ch, rate, why) in spec:
             x = nprng.randint(-3000, 3000, size=(n,) if ch == 1 else (n, ch))
@@ -126,12 +127,14 @@ def kaldi_runs(run, tier, rng, root, traces):
     if tier == "quick":
         combos = [c for i, c in enumerate(combos) if i % 3 == (c[0] + c[1]) % 3]
     tid = len(traces)
-    for (pi, qi, syntax) in combos:
+    # --min-duration is the minimum duration that IS processed: the last pass excludes everything shorter than 0.125 s
+    # and keeps the utterance that lasts exactly 0.125 s
+    for (pi, qi, syntax, min_dur) in [c + (0.0,) for c in combos] + [(1, 1, "inline", 0.125)]:
         pre_cfg, post_cfg = PRES[pi], POSTS[qi]
         for channel in (-1, 1):
-            if channel == 1 and (pi + qi) % 2:
+            if channel == 1 and ((pi + qi) % 2 or min_dur):
                 continue
-            ark = os.path.join(d, "feats_%d_%d_%s_%d.ark" % (pi, qi, syntax, channel))
+            ark = os.path.join(d, "feats_%d_%d_%s_%d_%d.ark" % (pi, qi, syntax, channel, int(min_dur * 1000)))
             trace = os.path.join(d, "trace.ndjson")
             if os.path.exists(trace):
                 os.remove(trace)
@@ -143,6 +146,8 @@ def kaldi_runs(run, tier, rng, root, traces):
                 args.append("--postprocess=" + config_arg(post_cfg, syntax, d, "post"))
             if channel != -1:
                 args.append("--channel=%d" % channel)
+            if min_dur:
+                args.append("--min-duration=%s" % min_dur)
             saved = os.dup(2)
             devnull = os.open(os.devnull, os.O_WRONLY)
             try:
@@ -163,6 +168,8 @@ def kaldi_runs(run, tier, rng, root, traces):
             included, signals = [], {}
             for (uid, n, ch, rate, why) in spec:
                 x = utts[uid][0]
+                if n / float(rate) < min_dur:
+                    continue  # shorter than --min-duration
                 if rate != RATE:
                     continue  # sampling-rate mismatch
                 if channel != -1 and channel >= ch:
@@ -174,6 +181,13 @@ def kaldi_runs(run, tier, rng, root, traces):
                 stored = list(f.items())
             ids = [k for k, _ in stored]
             want = library_kaldi(signals, included, pre_cfg, post_cfg, 11)
+            for u in included:
+                if u not in ids:
+                    run.violation({"kind": "utterance_missing_from_output", "tool": "kaldi", "utt": u, "pre": pre_cfg, "post": post_cfg,
+                                   "channel": channel, "min_duration": min_dur})
+            for u in ids:
+                if u not in included:
+                    run.violation({"kind": "excluded_utterance_in_output", "tool": "kaldi", "utt": u, "channel": channel, "min_duration": min_dur})
             for k, v in stored:
                 if k in want:
                     w = want[k]
@@ -188,7 +202,7 @@ def kaldi_runs(run, tier, rng, root, traces):
                            "computer": True, "empty_skips_post": True, "write_event": True, "output": ids,
                            "utts": [{"id": uid, "excluded": uid not in included, "empty": utts[uid][3] == "empty",
                                      "events": per.get(uid, [])} for (uid, *_rest) in spec],
-                           "config": {"syntax": syntax, "channel": channel}})
+                           "config": {"syntax": syntax, "channel": channel, "min_duration": min_dur}})
 
 
 COMPUTERS2 = [
@@ -220,7 +234,8 @@ def torch_runs(run, tier, rng, root, traces, computer=None, seed=5, combos=None,
     lines = []
     for k, (n, cont) in enumerate([(900, "wav"), (1300, "npy"), (60, "npy"), (1100, "pt"), (800, "sph"), (1000, "npy2"),
                                    (100, "npy"), (161, "wav")]):
-        uid = "t%02d" % k
+        # (ids are matched whole: "t00" is not done because "t00x" is)
+        uid = {0: "t00x", 3: "t00"}.get(k, "t%02d" % k)
         x = nprng.randint(-3000, 3000, size=n).astype(np.int16)
         p = os.path.join(d, "raw", uid + "." + cont.replace("npy2", "npy"))
         if cont == "wav":
